@@ -112,13 +112,22 @@ pub fn front(toks: Vec<Tok>) -> Vec<Tok> {
             }
             return vec![vec![ok], vec![], vec![ok], vec![], vec![ok], vec![], vec![9], vec![]];
         }
+        probe_listener(ep.addr).await
+    })
+}
+
+/// Three TLS connections (each with the random its ClientHello happens to carry), then one whose ClientHello is spread
+/// over two TLS records; per connection: [admitted] client-random
+pub async fn probe_listener(addr: std::net::SocketAddr) -> Vec<Tok> {
+    use std::time::Duration;
+    {
         use tokio::io::{AsyncReadExt, AsyncWriteExt};
         // three connections, each with the random its ClientHello happens to carry
         let mut out = vec![];
         // the fourth one sends its ClientHello spread over two TLS records: the listener cannot read the random
         // ahead of the handshake then (reported as an empty random), although the handshake itself is fine
         for attempt in 0..4 {
-            let (tls, wire) = crate::front::tls_connect_tap_opt(ep.addr, "localhost", &[b"http/1.1"], attempt == 3).await;
+            let (tls, wire) = crate::front::tls_connect_tap_opt(addr, "localhost", &[b"http/1.1"], attempt == 3).await;
             let mut ok = 0u128;
             if let Some(mut s) = tls {
                 let _ = s.write_all(b"CONNECT _check HTTP/1.1\r\nHost: x\r\n\r\n").await;
@@ -139,5 +148,5 @@ pub fn front(toks: Vec<Tok>) -> Vec<Tok> {
             out.push(tok(&random));
         }
         out
-    })
+    }
 }
